@@ -26,6 +26,7 @@ PROPS = {
     "C09": _p(4000, 60000),
     "C19": _p(1500, 20000),
     "C12": _p(4000, 60000),
+    "C16": dict(_p(3000, 30000, assumptions=["the Go memory model: data-race freedom itself is evidenced by the race detector on the seeded concurrent histories (support, not proof)"]), race=600),
     "C14": _p(90, 900, mode="store", tb=["os.Root, the file system and encoding/base64 (the model's b64url is compared with the files found on disk)"]),
     "C15": _p(16, 80, mode="store", tb=["POSIX rename(2) atomicity, open-file-description semantics, fsync durability"]),
     "C17": _p(6, 40, mode="store", tb=["AES-GCM and crypto/rand (abstract ideal AEAD, fresh nonces)"]),
